@@ -45,7 +45,18 @@ def _self_reads(f: FuncInfo, expr_root: Optional[ast.AST], repo: Repo, depth: in
             elif m is not None:
                 continue
             else:
-                out.add(n.attr)
+                # maximal access path rooted at self: self.token.value -> 'token.value'
+                top = n
+                from ..model import parent as _parent
+                while isinstance(_parent(top), ast.Attribute) and _parent(top).value is top and isinstance(_parent(top).ctx, ast.Load) \
+                        and not (isinstance(_parent(_parent(top)), ast.Call) and _parent(_parent(top)).func is _parent(top)):
+                    top = _parent(top)
+                path = []
+                x = top
+                while x is not n:
+                    path.append(x.attr)
+                    x = x.value
+                out.add('.'.join([n.attr] + list(reversed(path))))
         elif isinstance(n, ast.Call):
             fn = n.func
             # type(self) -> pseudo attribute
@@ -153,6 +164,17 @@ def run(ctx: Ctx) -> RuleResult:
                 f_hash = set()
                 for m, v in defs:
                     f_hash |= _self_reads(m, v, repo)
+                    # constructor parameters that were stored in a field stand for that field: self.token = token; hash(token)
+                    msn = m.self_name()
+                    alias = {}
+                    for a in m.body_nodes():
+                        if isinstance(a, ast.Assign) and isinstance(a.value, ast.Name):
+                            for t in a.targets:
+                                if isinstance(t, ast.Attribute) and isinstance(t.value, ast.Name) and t.value.id == msn:
+                                    alias[a.value.id] = t.attr
+                    for x in ast.walk(v):
+                        if isinstance(x, ast.Name) and x.id in alias:
+                            f_hash.add(alias[x.id])
                 # Serialize: cache outside serialised fields must be recomputed in _deserialize
                 ser = k.literal_attr('__serialize_fields__')
                 if ser is not None and attr not in ser:
@@ -170,7 +192,9 @@ def run(ctx: Ctx) -> RuleResult:
                                 % sorted(texts), construct=attr, props=props, module=k.module)
         both += 1
         # closure: '<type>' is compared whenever __eq__ tests isinstance(other, type(self)) or type(self)==type(other)
-        extra = f_hash - f_eq
+        def _covered(p_):
+            return any(p_ == q_ or p_.startswith(q_ + '.') for q_ in f_eq)
+        extra = {p_ for p_ in f_hash if not _covered(p_)}
         # str content: Token.__eq__ delegates to str.__eq__
         ok = res.ob(site, 'fields read by %s %s are all compared by %s %s' % (hdesc, sorted(f_hash), eq.qual, sorted(f_eq)),
                     not extra, props)
@@ -178,6 +202,19 @@ def run(ctx: Ctx) -> RuleResult:
             res.finding(k.qual, eq.node, '__hash__ reads %s which __eq__ does not compare: two objects can be equal '
                         'with different hashes (set/dict lookups then depend on the hash seed)' % sorted(extra),
                         construct='hash%s vs eq%s' % (sorted(f_hash), sorted(f_eq)), props=props, module=k.module)
+        # hashed fields are compared by value, not by identity (equal-valued distinct objects hash alike and must compare equal,
+        # otherwise sets keep duplicates that the hash says are the same)
+        osn = eq.self_name()
+        for cmp_ in [x for x in eq.body_nodes() if isinstance(x, ast.Compare)]:
+            if len(cmp_.ops) == 1 and isinstance(cmp_.ops[0], (ast.Is, ast.IsNot)):
+                l, r = cmp_.left, cmp_.comparators[0]
+                if isinstance(l, ast.Attribute) and isinstance(r, ast.Attribute) and l.attr == r.attr and l.attr in {h_.split('.')[0] for h_ in f_hash} \
+                        and isinstance(l.value, ast.Name) and isinstance(r.value, ast.Name) and {l.value.id, r.value.id} >= {osn} \
+                        and l.value.id != r.value.id:
+                    res.ob(site, 'hashed field %s is compared by value' % l.attr, False, props)
+                    res.finding(k.qual, cmp_, '__eq__ compares the hashed field %s by identity: two nodes with equal (but distinct) '
+                                'children hash alike yet compare unequal, so the same derivation is stored twice' % l.attr,
+                                construct='identity-compare:%s' % l.attr, props=props, module=k.module)
         # fields behind a *cached* hash are not assigned outside constructors (the cache would go stale);
         # classes that hash on the fly (Tree, Symbol ...) are mutable by design and not constrained here
         is_cached = kind == 'method' and any(a.startswith('_hash') for a in _self_reads(hm, None, repo))
@@ -194,7 +231,7 @@ def run(ctx: Ctx) -> RuleResult:
                         tgts = [n.target]
                     for t in tgts:
                         if isinstance(t, ast.Attribute) and isinstance(t.value, ast.Name) and t.value.id == sn \
-                                and t.attr in f_hash:
+                                and t.attr in {h_.split('.')[0] for h_ in f_hash}:
                             res.ob(site, 'hashed field %s not assigned in %s' % (t.attr, m.qual), False, props)
                             res.finding(m, n, 'field %s takes part in the hash but is assigned after construction'
                                         % t.attr, props=props)
